@@ -54,7 +54,7 @@ def np_profile(case):
     if "V" in case:
         A = lay(np.array([[np.nan if x is None else float(x) for x in row] for row in case["V"]], dtype=float), case.get("layout"))
         return A, ValuationProfile.of(A)
-    dt = {"int64": np.int64, "int32": np.int32, "float": float}[case.get("dtype", "int64")]
+    dt = {"int64": np.int64, "int32": np.int32, "float": float, "float32": np.float32, "float16": np.float16}[case.get("dtype", "int64")]
     A = np.array(case["P"], dtype=dt)
     if "mults" in case:     # a large electorate given as distinct ballots with multiplicities
         A = np.repeat(A, case["mults"], axis=0)
